@@ -149,6 +149,8 @@ def api_level(ctx, by_cfg):
         alone_out = {}
         for rel, rep in pmap(alone, files):
             ctx.case(None)
+            if worker.timed_out(ctx, rep):
+                continue
             if "ok" not in rep:
                 # an error/panic is not a determinism verdict: recorded, consistency is still required below
                 alone_out[rel] = ("ERR", rep.get("error") or rep.get("panic") or rep.get("died"))
